@@ -313,9 +313,15 @@ func (g *G) genC07(p *Plan) {
 			}
 			return w
 		}
+		second := watch()
+		if g.chance(0.5) {
+			// ... or one of them uploads the same part number again meanwhile
+			second = []Op{{K: "mpu-lsparts", Up: 0}, {K: "mpu-part", Up: 0, Part: 1, Body: g.body(8 + g.rng.Intn(100))}, {K: "mpu-lsparts", Up: 0},
+				{K: "mpu-part", Up: 0, Part: 1, Body: g.body(8 + g.rng.Intn(100))}, {K: "get", B: b, Key: uk}}
+		}
 		p.Clients = [][]Op{
 			{{K: "mpu-part", Up: 0, Part: 1, Body: g.body(8 + g.rng.Intn(100))}, {K: "mpu-complete", Up: 0, Parts: []PartRef{{N: 1}}}, {K: "get", B: b, Key: uk}},
-			watch(), watch(),
+			watch(), second,
 		}
 		c.Policy = []simrt.Policy{{Kind: "coarse", PIO: 0.2}, {Kind: "coarse", PIO: 0.5}, {Kind: "pct", Depth: 2, Len: 300}, {Kind: "pct", Depth: 3, Len: 1500}, g.policy(3)}[g.rng.Intn(5)]
 		return
